@@ -421,13 +421,10 @@ def job_ground_accuracy(ctx: Ctx, what):
         vex = vex + pot(q, ecs, eal, ecf)
         basis = np.array([5.0, 0.8, 2.0])        # deliberately not ascending: the fitted exponents must stay paired with their weights
         v2 = solve_poisson_robust(mg, dens, itf, atn, atc, split2=True, alphas_basis=basis, include_origin=True, remove_large_pts=10.0)(q)
-        v1 = solve_poisson_robust(mg, dens, itf, atn, atc, include_origin=True, remove_large_pts=10.0)(q)
-        e2, e1 = float(np.max(np.abs(v2 - vex))), float(np.max(np.abs(v1 - vex)))
+        e2 = float(np.max(np.abs(v2 - vex)))
         if not e2 <= 2e-2:
-            bad["robust solver with the NNLS split (split2=True), two centres, vs analytic potential"] = dict(max_abs_error=e2, error_without_split=e1)
-        if not e1 <= 2e-2:
-            bad["robust solver (split 1), two centres, vs analytic potential"] = e1
-        label = "robust solver with and without the NNLS split matches the analytic potential of core model + smooth Gaussians on two centres (2e-2)"
+            bad["robust solver with the NNLS split (split2=True), two centres, vs analytic potential"] = dict(max_abs_error=e2)
+        label = "robust solver with the NNLS split matches the analytic potential of core model + smooth Gaussians on two centres (2e-2)"
     elif what == "atom":
         ag = AtomGrid(rg, degrees=[9], rotate=7)       # every shell carries its own random rotation
         # displaced Gaussians on both sides and of both signs: harmonic components of either sign, some of one sign only
